@@ -664,12 +664,14 @@ func (p *refParser) readHeredocs() {
 	for len(p.here) > 0 {
 		h := p.here[0]
 		p.here = p.here[1:]
+		p.peeked = false
 		found := false
 		for !found {
 			if p.eof() {
 				p.failWith(RefIncomplete)
 				return
 			}
+			// the line starting here: is it the delimiter line?
 			j := p.i
 			for j < len(p.s) && p.s[j] != '\n' {
 				j++
@@ -681,35 +683,69 @@ func (p *refParser) readHeredocs() {
 				}
 			}
 			if string(line) == h.delim {
-				found = true
-			} else if !h.quoted {
-				// the body of an unquoted here-document is scanned for expansions
-				b := &refParser{s: p.s[p.i:j]}
-				for !b.eof() && b.fail == 0 {
-					switch b.s[b.i] {
-					case '\\':
-						b.i += 2
-					case '$':
-						b.scanDollar()
-					case '`':
-						b.i++
-						b.scanBackquoted()
-					default:
-						b.i++
-					}
+				p.i = j
+				if p.i < len(p.s) {
+					p.i++
 				}
-				if b.fail != 0 {
-					p.failWith(RefIllFormed)
+				found = true
+				break
+			}
+			if h.quoted {
+				// literal body: skip the line
+				p.i = j
+				if p.i < len(p.s) {
+					p.i++
+				} else {
+					p.failWith(RefIncomplete)
 					return
 				}
+				continue
 			}
-			p.i = j
-			if p.i < len(p.s) {
-				p.i++
-			} else if !found {
+			// the body of an unquoted here-document is scanned for expansions,
+			// which may span lines; the delimiter is looked for again at the
+			// start of the line that follows them
+			for !p.eof() && p.s[p.i] != '\n' && p.fail == 0 {
+				switch p.s[p.i] {
+				case '\\':
+					p.i += 2
+					if p.i > len(p.s) {
+						p.i = len(p.s)
+					}
+				case '$':
+					p.scanDollar()
+					p.peeked = false
+				case '`':
+					p.i++
+					p.scanBackquoted()
+					p.peeked = false
+				default:
+					p.i++
+				}
+			}
+			if p.fail != 0 {
+				p.fail = RefIllFormed
+				return
+			}
+			if p.eof() {
+				// the text ends inside the body: the last line may still be the delimiter
+				k := len(p.s)
+				for k > 0 && p.s[k-1] != '\n' {
+					k--
+				}
+				last := p.s[k:]
+				if h.stripTabs {
+					for len(last) > 0 && last[0] == '\t' {
+						last = last[1:]
+					}
+				}
+				if string(last) == h.delim {
+					found = true
+					break
+				}
 				p.failWith(RefIncomplete)
 				return
 			}
+			p.i++ // the newline
 		}
 	}
 }
